@@ -296,6 +296,39 @@ def parts(tier):
     ps.append(BfsPart("insert-delete-points-far-from-zero", lambda: bpseeds, _ops_pt(bgrid), _step_pt,
                       rule="the same for point tiers (<=3 points, distinct and equal labels) on the far-from-zero grid", bounds={"depth": 1}, max_depth=1,
                       prune=_prune))
+    # the size axis: long tiers; one insertEntry (windows at the probed entries, up to all entries colliding at once) or deleteEntry
+    def size_ops(state):
+        e = state[4]
+        cuts = D.size_cuts(e)
+        n = len(e)
+        for a, b in D.size_windows(cuts, near=4 if n < 100 else 2, far=2):
+            for m in CMODES:
+                yield ("ins", a, b, m, RMODES[(int(a * 4) + int(b * 4)) % 2])
+        for i in D.probe_indices(n):
+            yield ("del", i)
+        yield ("delabs", 0)
+        yield ("delabs", 1)
+
+    size_seeds = [("I", "t", 0.0, e[-1][1] + 1.0, e) for n, layout, e in D.size_family(quick)]
+    ps.append(BfsPart("insert-delete-size-sweep", lambda: size_seeds, size_ops, _step_iv,
+                      rule="one insertEntry / deleteEntry step from interval tiers of %s entries (gapped and contiguous): new entries whose edges lie just "
+                           "before / at / inside / at the end of the entries at both ends, at n/4, n/2, 3n/4 and at indices 8-10, 15-16, 255-257 (colliding "
+                           "with 0 .. all entries at once) x 3 modes; deletion of each probed entry" % (list(D.SIZES_QUICK if quick else D.SIZES_THOROUGH),),
+                      bounds={"depth": 1}, max_depth=1, prune=lambda st: False))
+
+    def size_ops_pt(state):
+        n = len(state[4])
+        for i in D.probe_indices(n):
+            for m in CMODES:
+                yield ("ins", state[4][i][0], m, RMODES[i % 2])
+                yield ("ins", state[4][i][0] + 0.25, m, RMODES[i % 2])
+            yield ("del", i)
+        yield ("delabs", 0)
+
+    size_seeds_pt = [("P", "t", 0.0, n + 1.0, D.long_points(n)) for n in (D.SIZES_QUICK if quick else D.SIZES_THOROUGH)]
+    ps.append(BfsPart("insert-delete-points-size-sweep", lambda: size_seeds_pt, size_ops_pt, _step_pt,
+                      rule="the same for point tiers of those sizes (insert at / between the probed points, delete each probed point)",
+                      bounds={"depth": 1}, max_depth=1, prune=lambda st: False))
     live_iv = [("I", "t", 0.0, 4.0, ()), ("I", "t", 0.0, 4.0, ((1.0, 2.0, "a"),)), ("I", "t", 0.0, 4.0, ((0.0, 1.0, "a"), (1.0, 3.0, "b")))]
     live_vals = (-1.0, 0.0, 0.5, 1.0, 2.0, 3.0, 5.0)
     ps.append(InputPart("live-sequences-intervals", lambda: ((s0, op1) for s0 in live_iv for op1 in _ops_iv(live_vals)(s0)),
